@@ -89,8 +89,8 @@ CHECKS = {
             "Mixed: proved - the disconnected branch warns and returns the square, finite restriction of the distance matrix to a largest component on both axes and never raises; the integer type holds the maximum; pair / collection dispatch, N < 2 rejected, symmetric zero-diagonal matrices whose entries are the pairwise estimates; lower bounds are RNG-free. Format coercion (list / dense / CSR, triu / symmetric) is SciPy's: bounded sweep.",
             "D10 shortest_path, D19 unique / tril_indices, D20 connected_components (as assumed contracts, swept at run time); generator, models, contracts trusted"),
     "C19": ("other",
-            "frame (ownership) obligations generated by the VC engine for a cross-section of the functions under contract in ten modules (every in-place write on every path must target a buffer not reachable from a parameter), dtype-store obligations, AST scans (no global/nonlocal state, RNG only in the mGH upper bound); byte-level comparison of arguments and repetition/interleaving over ~35 public entry points; list/int/float agreement",
-            "Mixed: proved for the functions under contract - no path stores into an argument's buffer (np.array/np.copy/astype(copy=True)/mask indexing yield fresh buffers, views alias), no float is stored into an integer buffer inherited from the caller, no module state, randomness only through NumPy's global generator in the mGH upper bound. Everything else (all remaining public entry points, repeatability, interleaving, representation independence) is the bounded byte-level stand-in. Known finding: the deprecated PersImage caches `specs`.",
+            "frame (ownership) obligations generated by the VC engine for 60+ functions / variants under contract in every module (every in-place write on every path - subscript stores, augmented assignments, in-place ndarray methods, out= arguments - must target a buffer not reachable from a parameter; list arguments keep their length and elements), dtype-store obligations; only these clauses of the re-verified contracts are read here, their functional clauses belong to their own properties; AST scans (no global/nonlocal state, RNG only in the mGH upper bound); byte-level comparison of arguments and repetition/interleaving over ~35 public entry points; list/int/float agreement",
+            "Mixed: proved for the functions under contract (distances, kernels, entropy, imager construction/fit/transform and kernels, landscape constructors, operators, tools, norms and transformer, mGH pipeline incl. the lower-bound chain, plots) - no path stores into an argument's buffer or rebinds / resizes an argument list (np.array/np.copy/astype(copy=True)/mask indexing yield fresh buffers, views alias), no float is stored into an integer buffer inherited from the caller, no module state, randomness only through NumPy's global generator in the mGH upper bound. Everything else (all remaining public entry points, repeatability, interleaving, representation independence) is the bounded byte-level stand-in. Known finding: the deprecated PersImage caches `specs`.",
             "A5 view/copy classification of the NumPy model; functions outside the contracts only sampled; generator, models, contracts trusted"),
 }
 
